@@ -4,6 +4,7 @@ import Proofs.DkgOnce
 import Proofs.DkgHonest
 import Proofs.DkgBlame
 import Proofs.DkgJointAgree
+import Proofs.DkgDealerBlame
 
 /-! # C08 — DKG qualification is fair: honest never blamed, bad dealing never accepted
 
@@ -379,6 +380,37 @@ theorem joint_round_never_blames_honest (s : St O) (inv : Inv s) (A : Nat) (hA :
       (stream (relevantOnly A s.dealer l) (A, false) = [zCmpl A s.dealer] ∧ recvAt s A = false ∧ s.complaintsTimeout = false)) :
     NoBlame A (runOuts s l) := run_noblame_joint s inv A hA hAme hd l hon hl
 
+open Proofs.DkgCommute Proofs.DkgAgree in
+/-- **an honest dealer is never blamed by an honest receiver** (the instances whose dealer is itself honest): over
+    the three rounds, both timeouts and `End` of a Feldman-VSS-Qual instance - also as one of the `n` instances of
+    Joint-Feldman -, no `Disqualify` and no `FlagMisbehavior` callback of the receiver targets the dealer, whatever
+    the other participants broadcast or send and in whatever order, given what an honest dealer and a reliable
+    network provide: deliveries compatible with an honest dealer (`RoundOK'`), the vector and the receiver's share in
+    the first round, at most `t` complainers (`K`), each answered, no message of the dealer delivered twice (`Once`),
+    neither vector nor share after the first round (`NoVS`), and no complaint-tagged broadcast of the dealer after
+    the second timeout (`DealerQuiet`). -/
+theorem honest_dealer_never_blamed_by_honest (H : Honest O) (K : Finset Nat) (s0 : St O) (h0 : HD H s0)
+    (hst0 : s0.sharesTimeout = false) (hct0 : s0.complaintsTimeout = false) (hK : K.card ≤ s0.threshold)
+    (hk0 : keysIn K s0) (hv0 : s0.vAReceived = false) (hx0 : s0.xReceived = false) (hc0 : s0.complaints = [])
+    (r1 r2 r3 : List Dl)
+    (ok1 : RoundOK' H K s0 false r1) (ok2 : RoundOK' H K s0 false r2) (ok3 : RoundOK' H K s0 true r3)
+    (hvec : ∃ e ∈ r1, ∃ d, ∀ t, CfgCT s0 false t → classify t e = .vec d)
+    (hshare : ∃ e ∈ r1, ∃ d, ∀ t, CfgCT s0 false t → classify t e = .share d)
+    (hans : ∀ k ∈ K, ∃ a, (∃ e ∈ r1, ∀ t, CfgCT s0 false t → classify t e = .ans k (some a)) ∨
+      (∃ e ∈ r2, ∀ t, CfgCT s0 false t → classify t e = .ans k (some a)) ∨
+      (∃ e ∈ r3, ∀ t, CfgCT s0 true t → classify t e = .ans k (some a)))
+    (once : Once s0 (r1 ++ (r2 ++ r3))) (novs2 : NoVS s0 r2) (novs3 : NoVS s0 r3)
+    (quiet3 : ∀ e ∈ r3, ∀ t, CfgCT s0 true t → DealerQuiet t e) :
+    NoBlame s0.dealer (allOuts s0 r1 r2 r3) :=
+  honest_dealer_never_blamed H K s0 h0 hst0 hct0 hK hk0 hv0 hx0 hc0 r1 r2 r3 ok1 ok2 ok3 hvec hshare hans once
+    novs2 novs3 quiet3
+
+open Proofs.DkgCommute Proofs.DkgAgree in
+/-- the step behind it: one allowed, first-time, in-time delivery never blames the dealer -/
+theorem delivery_never_blames_honest_dealer {H : Honest O} {s : St O} (h : HD H s) (e : Dl)
+    (ha : AllowedK H s (classify s e)) (hf : FreshFor s (classify s e)) (hq : DealerQuiet s e) :
+    NoBlame s.dealer (stepOuts s e) := step_noblame_dealer h e ha hf hq
+
 /-! ### non-vacuity of the honest-dealer theorem: a concrete run that meets every hypothesis -/
 
 section NonVacuity
@@ -460,6 +492,52 @@ example :
   rw [e1, e2, e3]
   exact ⟨rfl, rfl, rfl, by decide +kernel⟩
 
+
+open Proofs.DkgAgree in
+/-- non-vacuity of `honest_dealer_never_blamed_by_honest`: the same run (vector and share in round one, nobody
+    complains) meets every hypothesis; the receiver's outputs are empty -/
+example : NoBlame s0.dealer (allOuts s0 [.bcast 0 (tagVerifVec :: vb), .priv 0 sb] [] []) ∧
+    allOuts s0 [.bcast 0 (tagVerifVec :: vb), .priv 0 sb] [] [] = [] := by
+  have hcl1 : ∀ t : St triv, t.me = 1 → t.dealer = 0 → classify t (.bcast 0 (tagVerifVec :: vb)) = .vec vb := by
+    intro t e1 e2
+    show classifyB t 0 (tagVerifVec :: vb) = _
+    unfold classifyB
+    simp [e1, e2, tagVerifVec]
+  have hcl2 : ∀ t : St triv, t.me = 1 → t.dealer = 0 → classify t (.priv 0 sb) = .share sb := by
+    intro t e1 e2
+    show (if t.me = 0 then Kind.noop else if 0 = t.dealer then Kind.share sb else Kind.noop) = _
+    simp [e1, e2]
+  refine ⟨?_, by decide +kernel⟩
+  refine honest_dealer_never_blamed_by_honest Htriv ∅ s0 (hd_init Htriv 3 1 0 (by decide)) rfl rfl (by simp)
+    (fun k c hc => by cases hc) rfl rfl rfl _ _ _ ?_ ?_ ?_ ⟨_, by simp, vb, fun t ht => hcl1 t ht.1 ht.2.1⟩
+    ⟨_, List.mem_cons_of_mem _ (by simp), sb, fun t ht => hcl2 t ht.1 ht.2.1⟩ (fun k hk => by simp at hk) ?_ ?_ ?_ ?_
+  · intro e he t ht
+    simp only [List.mem_cons, List.not_mem_nil, or_false] at he
+    rcases he with rfl | rfl
+    · rw [hcl1 t ht.1 ht.2.1]
+      refine ⟨⟨rfl, ?_⟩, trivial, trivial⟩
+      unfold parseVec
+      have hth : t.threshold = 1 := ht.2.2.2.1
+      have hlen : vb.length = verifVectorSize * (t.threshold + 1) := by
+        rw [hth]; unfold vb verifVectorSize; rw [List.length_replicate]
+      rw [if_neg (fun hne => hne hlen)]
+      rfl
+    · rw [hcl2 t ht.1 ht.2.1]
+      refine ⟨⟨rfl, ?_⟩, trivial, trivial⟩
+      rfl
+  · intro e he; cases he
+  · intro e he; cases he
+  · -- no message of the dealer twice: the vector and the share are different messages
+    show List.Pairwise _ ([Dl.bcast 0 (tagVerifVec :: vb), Dl.priv 0 sb] ++ ([] ++ []))
+    simp only [List.append_nil, List.pairwise_cons, List.mem_cons, List.not_mem_nil, or_false, forall_eq,
+      List.Pairwise.nil, and_true, IsEmpty.forall_iff, implies_true]
+    intro t u ht hu
+    rw [hcl1 t ht.1 ht.2.1, hcl2 u hu.1 hu.2.1]
+    exact fun hh => hh
+  · intro e he; cases he
+  · intro e he; cases he
+  · intro e he; cases he
+
 end NonVacuity
 
 end Props.C08
@@ -484,3 +562,5 @@ end Props.C08
 #print axioms Props.C08.honest_broadcasts_one_complaint
 #print axioms Props.C08.blame_targets
 #print axioms Props.C08.joint_round_never_blames_honest
+#print axioms Props.C08.honest_dealer_never_blamed_by_honest
+#print axioms Props.C08.delivery_never_blames_honest_dealer
